@@ -179,6 +179,8 @@ func txnSQL(a Action) string {
 		return fmt.Sprintf("INSERT INTO %s SELECT id + 10, v FROM %s;", t, tname(aStr(a, "u")))
 	case "insertcols":
 		return fmt.Sprintf("INSERT INTO %s (id) VALUES (%d);", t, k)
+	case "insertdup":
+		return fmt.Sprintf("INSERT INTO %s (id, id) VALUES (%d, %d);", t, k, k+1)
 	case "insertbad2":
 		return fmt.Sprintf("INSERT INTO %s VALUES (%d, 1), (%d);", t, k, k+1)
 	case "updatejoin":
@@ -486,7 +488,7 @@ func txnRandom(r *core.Run, hk int, flavour string) (Action, []Action) {
 				acts = append(acts, txnA2([]string{"updatejoin", "deletejoin"}[rng.Intn(2)], t, u))
 			}
 		case x < 11:
-			acts = append(acts, txnA([]string{"insertcols", "insertbad2", "addfail"}[rng.Intn(3)], t, key(), 0))
+			acts = append(acts, txnA([]string{"insertcols", "insertbad2", "addfail", "insertdup"}[rng.Intn(4)], t, key(), 0))
 		case x < 12:
 			acts = append(acts, txnA("addfirst", t, 0, 0))
 		case x < 22:
